@@ -70,11 +70,12 @@ Print Assumptions C11_did_string_total.
 
 (* ------------------------------------------------------------------ *)
 (* From the request BODY (ServerBytes.v): request.Decode (MessageBytes.decode_message), every block
-   read as the accessors read it (TokenView.view_block over the typed decoding of TokenBytes.v),
+   read as the accessors read it (LinkIntegrity.token_at: TokenView.view_block over the typed decoding
+   of TokenBytes.v when the block's CID is the dag-cbor / sha2-256 CID of its bytes, no field otherwise),
    server.Execute (Server.execute) — composed.  Links are numbered by an injective function of
    the CID bytes (bstr_code).  Still PARTIAL in the sense of this property: Go runtime panics
    below the modelled layer are observed (child process), not modelled. *)
-From Ucanto Require Import Ipld Cbor Formats MessageFormat Car MessageBytes TokenBytes TokenView ServerBytes.
+From Ucanto Require Import Ipld Cbor Formats MessageFormat Car MessageBytes TokenBytes TokenView LinkIntegrity ServerBytes.
 
 (* Every body, whatever its bytes, is answered: request.Decode refuses it (400, nothing runs), or
    Execute returns an error value, or a report — the model does not run out of fuel when the block
@@ -91,10 +92,10 @@ Theorem C11_bytes_total :
     (forall l p, resolve_proof (s_ctx srv) l = Some p -> d_link p = l) ->
   forall rank : link -> nat,
     (forall d, decode_message mh_digest hdr_oracle body = Some d ->
-       forall l t p, U_of extb view (blocks_of d) l = Some t -> In p (t_prf t) -> (rank p < rank l)%nat) ->
+       forall l t p, U_of mh_digest extb view (blocks_of d) l = Some t -> In p (t_prf t) -> (rank p < rank l)%nat) ->
     (forall d, decode_message mh_digest hdr_oracle body = Some d ->
        forall l, In l (exec_of (d_msg d)) ->
-         (need (prf_bound extb view (blocks_of d)) (rank l) + 1 <= fuel)%nat) ->
+         (need (prf_bound mh_digest extb view (blocks_of d)) (rank l) + 1 <= fuel)%nat) ->
     serve_bytes mh_digest hdr_oracle fuel srv extb view body = SBad \/
     serve_bytes mh_digest hdr_oracle fuel srv extb view body = SDone ExecErr \/
     exists rep calls, serve_bytes mh_digest hdr_oracle fuel srv extb view body = SDone (ExecOk rep calls).
@@ -124,3 +125,28 @@ Theorem C11_bytes_undecodable_block :
     token_decode_typed b = None -> view_block num keys valid alg_of b = empty_token.
 Proof. exact view_block_undecodable. Qed.
 Print Assumptions C11_bytes_undecodable_block.
+
+(* A request in which a token travels under a CID c other than the dag-cbor / sha2-256 CIDv1 of its
+   bytes b (raw codec, CIDv0, dag-json, another hash function: the CAR reader accepts them all) is
+   served exactly as if that block carried bytes b' that are no UCAN at all — a token without
+   fields: what the accessors report for the block is the empty token, the server's token store
+   holds the empty token under that link (when the block is the first under c), and the answer is
+   Server.execute over the block table with b' in the place of b: same execute list, same visible
+   blocks, hence the same receipts and the same handler calls. *)
+Theorem C11_bytes_relabelled_no_fields :
+  forall (mh_digest : N -> N -> bstr -> option bstr) (hdr_oracle : bstr -> option (list bstr * N))
+         (keys : list N) (valid : N -> bstr -> bstr -> bool) (alg_of : N -> bstr) (fuel : nat) (srv : server)
+         (extb : list (bstr * bstr)) (view : bstr -> token),
+    (forall b, view b = view_block lid keys valid alg_of b) ->
+  forall (body : bstr) (d : decoded) (pre : list (bstr * bstr)) (c b : bstr) (post : list (bstr * bstr)),
+    decode_message mh_digest hdr_oracle body = Some d ->
+    blocks_of d = pre ++ (c, b) :: post ->
+    cid_of mh_digest b <> Some c ->
+    token_at mh_digest view c b = empty_token /\
+    (~ In c (map fst pre) -> U_of mh_digest extb view (blocks_of d) (lid c) = Some empty_token) /\
+    forall b', token_decode_typed b' = None ->
+      serve_bytes mh_digest hdr_oracle fuel srv extb view body =
+      SDone (execute (U_of mh_digest extb view (pre ++ (c, b') :: post)) fuel srv
+                     (vis_of (blocks_of d)) (exec_of (d_msg d))).
+Proof. exact serve_bytes_relabelled_no_fields. Qed.
+Print Assumptions C11_bytes_relabelled_no_fields.
